@@ -463,6 +463,71 @@ def mutants(pids=None, budget=25):
     return fails
 
 
+def seeded(ids=None, budget=30, out_path=None):
+    """Re-run every kept seeded breakage (/verif/seeded/<id>/patch.diff)
+    against the current machines, on a scratch copy of /repo/photutils."""
+    import fnmatch
+    import glob
+    fails = 0
+    lines = []
+    paths = [p for p in (ids or ()) if os.path.isdir(p)]
+    ids = [p for p in (ids or ()) if not os.path.isdir(p)]
+    dirs = sorted(glob.glob(os.path.join(VERIF, 'seeded', '*'))) \
+        if (ids or not paths) else []
+    for d in dirs + paths:
+        meta = os.path.join(d, 'meta.json')
+        if os.path.exists(meta):
+            m = json.load(open(meta))
+            sid, pid = m['id'], m['property']
+        elif d in paths:
+            # a candidate not kept yet: <PID>-<anything>/patch.diff
+            sid = os.path.basename(d.rstrip('/'))
+            pid = sid.split('-')[0]
+        else:
+            continue
+        if d not in paths and ids and not any(
+                fnmatch.fnmatch(sid, p) or fnmatch.fnmatch(pid, p)
+                for p in ids):
+            continue
+        root = tempfile.mkdtemp(prefix='simphot-seeded-')
+        try:
+            shutil.copytree('/repo/photutils', os.path.join(root, 'photutils'),
+                            ignore=shutil.ignore_patterns('__pycache__'))
+            pr = subprocess.run(['patch', '-p1', '-s', '-d', root, '-i',
+                                 os.path.join(d, 'patch.diff')],
+                                capture_output=True, text=True)
+            if pr.returncode != 0:
+                line = f'seeded {sid}: patch does not apply to the ' \
+                       f'current tree ({pr.stdout.strip()[:120]})'
+                print(line, flush=True)
+                lines.append(line)
+                continue
+            t0 = time.time()
+            rc, out = run_on_copy(pid, root, budget)
+            vio = [ln for ln in out.splitlines()
+                   if ln.startswith('  ') and '[' in ln][:2]
+            for ln in out.splitlines():
+                if ln.startswith('VIOLATION'):
+                    rp = ln.split('replay=')[-1].strip()
+                    if os.path.exists(rp):
+                        os.remove(rp)
+            ok = rc == 1
+            line = (f'seeded {sid}: rc={rc} {"caught" if ok else "MISSED"} '
+                    f'({time.time() - t0:.0f}s) '
+                    f'{" | ".join(v.strip()[:140] for v in vio)}')
+            print(line, flush=True)
+            lines.append(line)
+            if not ok:
+                fails += 1
+                print(out[-1500:])
+        finally:
+            shutil.rmtree(root, ignore_errors=True)
+    if out_path:
+        with open(out_path, 'w') as f:
+            f.write('\n'.join(lines) + '\n')
+    return fails
+
+
 def main(argv):
     if argv and argv[0] == '_digests':
         key, n = argv[1], int(argv[2])
@@ -478,5 +543,9 @@ def main(argv):
         return 2 if determinism(n=n, fresh=True, keys=keys) else 0
     if argv[0] == 'mutants':
         return 1 if mutants(argv[1:]) else 0
+    if argv[0] == 'seeded':
+        return 1 if seeded(argv[1:], out_path=os.path.join(
+            VERIF, 'seeded', 'REGRESSION.txt') if not argv[1:] else None) \
+            else 0
     print(__doc__)
     return 2
